@@ -72,10 +72,11 @@ Match ==
      \* is_done asked BEFORE the outputs were collected: a command with outputs waiting is not done, and one
      \* with nothing left is.  (An abort takes effect on entry to the NEXT settle: a command aborted during the
      \* one settle this first is_done ran -- by one of its own tasks -- may still say "not done" here and be
-     \* found done by the calls that follow; the model runs those settles as one.)
+     \* found done by the calls that follow; the model runs those settles as one.  The same holds one level down, for
+     \* a nested command aborted from inside: no demand while any command of the case carries an abort flag.)
      /\ ("done0" \in DOMAIN Line) =>
           /\ Line.done0 => (out = {} /\ LiveIn(St, RootKey) = {})
-          /\ (out = {} /\ LiveIn(St, RootKey) = {} /\ ~cmds[RootKey].aborted) => Line.done0
+          /\ (out = {} /\ LiveIn(St, RootKey) = {} /\ \A c \in DOMAIN cmds : ~cmds[c].aborted) => Line.done0
      /\ ("ops" \in DOMAIN Line) => Line.ops <= OpsAlive + Cardinality({i \in effs : TRUE})
   \* known deviation D12 observed: a task stuck in flatten_unordered is still there
   /\ IF \E t \in Live(St) : FlatStuck(St, t) THEN TLCSet(4, TLCGet(4) + 1) ELSE TRUE
